@@ -226,7 +226,11 @@ def run_interactive(ctx, fzf, c):
     if noexit is not None:
         extra = {"k": "noexit", "act": sessions.NAME_FIX.get(noexit["act"], noexit["act"]), "pre": mkpre(noexit), "env": env,
                  "reading": noexit["reading"], "count": noexit["count"]}
-    return {"extra": extra, "k": "session", "o": o, "items": c["items"], "act": act, "pre": pre, "env": env, "reading": lastst["reading"],
+    # the whole session is also judged transition by transition against FzfEditor: the selection ORDER that accept prints
+    # must be the order in which the specification says the items were selected, not merely what the program reports
+    ecfg = sessions.Cfg(multi="inf" if o["multi"] else None)
+    trans = [r for r in sessions.transitions(tr, ecfg, c["id"], lenient=True) if r["k"] in ("act", "list")]
+    return {"trans": trans, "extra": extra, "k": "session", "o": o, "items": c["items"], "act": act, "pre": pre, "env": env, "reading": lastst["reading"],
             "count": lastst["count"], "printQueue": pq, "pressed": pressed, "query": abstract(lastst["input"]),
             "out": split_out(out, o["print0"]), "status": status, "steps": c["steps"], "final": c["final"]}
 
@@ -294,7 +298,23 @@ def run(ctx):
         if r.get("extra"):
             allrecs.append(("session", c, r["extra"]))
     def clean(r):
-        return {k: v for k, v in r.items() if k != "extra"}
+        return {k: v for k, v in r.items() if k not in ("extra", "trans")}
+    trans = []
+    for c, r in zip(scases, srecs):
+        trans += r.get("trans") or []
+    if trans:
+        tb, _ = judge(ctx, "Judge_Editor", "Judge_Editor.cfg", trans, "editor-transitions", timeout=1200)
+        for sid in sorted({trans[i]["sid"] for i in tb})[:3]:
+            c = scases[[x["id"] for x in scases].index(sid)]
+            r2 = run_interactive(ctx, fzf, c)
+            tb2, _ = judge(ctx, "Judge_Editor", "Judge_Editor.cfg", r2["trans"], "editor-transitions-re", workers=1)
+            if not tb2:
+                raise Infra("rejected editor transition in C07 session %d not reproduced" % sid)
+            bad = r2["trans"][tb2[0]]
+            cc = dict(c)
+            cc["stdin"] = c["stdin"].decode("latin1")
+            ctx.violation("session %d: selection/query state diverges from FzfEditor at action %s: pre=%s post=%s" % (
+                sid, bad.get("act"), json.dumps(bad["pre"]), json.dumps(bad["post"])), {"kind": "session", "c": cc, "record": bad})
     bad, _ = judge(ctx, "Judge_Output", "Judge_Output.cfg", [clean(r) for _, _, r in allrecs], "output", timeout=1800)
     for i in bad[:8]:
         kind, c, r = allrecs[i]
